@@ -167,7 +167,27 @@ func main() {
 	nt := 0
 	runs := 0
 	var draws [4]int
+	// partial summaries (deltas) every few hundred runs: a process that dies at a guard
+	// page then loses little of what it covered
+	flush := func(at int) {
+		hs := make([]string, 0, len(seen))
+		for h := range seen {
+			hs = append(hs, strconv.FormatUint(h, 36))
+		}
+		sort.Strings(hs)
+		emit(&outLine{K: "sum", I: at, Runs: runs, NT: nt, Hashes: hs, Cnt: cnt, Samples: samples, Draws: draws})
+		for k := range cnt {
+			delete(cnt, k)
+		}
+		for k := range seen {
+			delete(seen, k)
+		}
+		samples, nt, runs, draws = nil, 0, 0, [4]int{}
+	}
 	for i := *from; i < *to; i++ {
+		if runs >= 400 {
+			flush(i)
+		}
 		seed := runSeed(*base, *prop, i)
 		if *progress {
 			emit(&outLine{K: "at", I: i, Seed: seed})
@@ -214,12 +234,8 @@ func main() {
 			}
 		}
 	}
-	hs := make([]string, 0, len(seen))
-	for h := range seen {
-		hs = append(hs, strconv.FormatUint(h, 36))
-	}
-	sort.Strings(hs)
-	emit(&outLine{K: "sum", I: *from, Runs: runs, NT: nt, Hashes: hs, Cnt: cnt, Samples: samples, Draws: draws})
+	flush(*to)
+	emit(&outLine{K: "end", I: *to})
 }
 
 func doReplay(path string) {
